@@ -478,6 +478,19 @@ func (x *Exec) applyContract(st *State, in ssa.Instruction, fc *FuncContract, ca
 	}
 	// blocking effect of the callee
 	x.effectOfCall(st, in, fc, name, env)
+	// locks the callee may acquire: lock-order edges from everything held here
+	if callee != nil && len(st.held) > 0 {
+		for l := range x.W.fnLocks(callee, map[*ssa.Function]bool{}) {
+			for _, h := range st.held {
+				_, hn := x.monitorFor(h.Key)
+				x.W.addLockEdge(hn, l, x.name+" calls "+name+" @"+x.P.PosStr(in.Pos()))
+				if hn == l {
+					o := x.oblig("lock-reentry["+l+" via "+name+"]@"+x.srcOf(in), "lockorder", nil, in.Pos())
+					x.Assert(st, o, False)
+				}
+			}
+		}
+	}
 	old := st.clone()
 	for _, a := range args {
 		if !fc.Pure {
